@@ -294,6 +294,41 @@ impl<'tcx> Cx<'tcx> {
                         return obj(v);
                     }
                 }
+                // &[T] of plain scalars (char, integers, bool): read the elements from the allocation
+                if let (ConstValue::Slice { alloc_id, meta }, ty::Ref(_, t, _)) = (val, ty.kind()) {
+                    if let ty::Slice(e) = t.kind() {
+                        let esz: Option<(usize, bool)> = match e.kind() {
+                            ty::Char => Some((4, false)),
+                            ty::Bool => Some((1, false)),
+                            ty::Uint(u) => u.bit_width().map(|b| ((b / 8) as usize, false)).or(Some((8, false))),
+                            ty::Int(i) => i.bit_width().map(|b| ((b / 8) as usize, true)).or(Some((8, true))),
+                            _ => None,
+                        };
+                        if let Some((sz, signed)) = esz {
+                            if let rustc_middle::mir::interpret::GlobalAlloc::Memory(mem) = tcx.global_alloc(alloc_id) {
+                                let n = meta as usize;
+                                let alloc = mem.inner();
+                                if n.checked_mul(sz).map_or(false, |tot| tot <= alloc.len()) {
+                                    let raw = alloc.inspect_with_uninit_and_ptr_outside_interpreter(0..n * sz);
+                                    let mut elems = Vec::with_capacity(n);
+                                    for k in 0..n {
+                                        let mut v: u128 = 0;
+                                        for (bi, b) in raw[k * sz..(k + 1) * sz].iter().enumerate() {
+                                            v |= (*b as u128) << (8 * bi);
+                                        }
+                                        if signed && sz < 16 && (v >> (8 * sz - 1)) & 1 == 1 {
+                                            let full: i128 = (v as i128) - (1i128 << (8 * sz));
+                                            elems.push(J::Int(full));
+                                        } else {
+                                            elems.push(J::UInt(v));
+                                        }
+                                    }
+                                    return obj(vec![("elems", J::Arr(elems)), ("ety", s(ty_str(*e)))]);
+                                }
+                            }
+                        }
+                    }
+                }
                 obj(vec![("opaque", s(format!("{:?}", val)))])
             }
             ConstValue::Indirect { .. } => {
